@@ -147,7 +147,7 @@ def obsOf (w : World) (ret : Ret) (net : List NetAct) (la : List Act := []) (lb 
 
 /-- Names of the observation fields in which two observations differ. -/
 def diffFields (a b : Obs) : List String :=
-  (if a.ret != b.ret then ["ret"] else []) ++
+  (if renderRet a.ret != renderRet b.ret then ["ret"] else []) ++
   (if a.net != b.net then ["net"] else []) ++
   (if (match a.sj, b.sj with
         | .ok x, .ok y => x.version != y.version
